@@ -1,7 +1,7 @@
 (* Scenario interpreter: the executable top level that is extracted and run against the real
    driver on the same event lists (correspondence check). *)
 From Coq Require Import ZArith List Bool.
-From RS Require Import Base.Bytes Base.Dyadic Model.Desc Model.Kernels Model.Decoder Model.Driver.
+From RS Require Import Base.Bytes Base.Dyadic Model.Desc Model.Kernels Model.Decoder Model.Driver Model.Input.
 Import ListNotations.
 Local Open Scope Z_scope.
 
@@ -52,8 +52,13 @@ Definition step (bl : build) (crc_table : list Z) (w : world) (e : event) : worl
       match lookup (w_drvs w) i with
       | None => (w, [SNoDrv i])
       | Some (v, stale) =>
-          let '(v', th, o) := process_packet bl crc_table v (w_th w) (w_now w) (w_host w) b stale in
-          (mk_world (update (w_drvs w) i (v', overlay2 stale b)) th (w_now w) (w_host w), map (SOut i) o)
+          (* decodePacket -> InputRaw::feedPacket: strip the configured layers, or drop the packet *)
+          match raw_feed (c_user (v_cfg v)) (c_tail (v_cfg v)) (raw_buf_len (v_desc v)) b with
+          | None => (w, [])
+          | Some payload =>
+              let '(v', th, o) := process_packet bl crc_table v (w_th w) (w_now w) (w_host w) payload stale in
+              (mk_world (update (w_drvs w) i (v', overlay2 stale payload)) th (w_now w) (w_host w), map (SOut i) o)
+          end
       end
   | EStop i =>
       match lookup (w_drvs w) i with
